@@ -53,7 +53,7 @@ def run(ck):
         return
     findings = [k for k in cpucheck.load_findings() if "C12" in k.get("properties", [k.get("property")])]
     for k in findings:
-        ck.known.append(f"KNOWN-FINDING: property=C12 {k['id']}: on the renaming variants the cycle count of one input is not repeatable (map-order choice among in-flight writers), hence not value-independent")
+        ck.known.append(f"KNOWN-FINDING: property=C12 {k['id']}: {k.get('c12_short') or k['short']}")
     ins, go, lean = ck.run_stream("cpu-c12")
     n_runs = 0
     tie_bad, prop_bad = [], []
